@@ -14,7 +14,7 @@ def c14(tier):
     return poolcheck.run(
         'C14', tier, 'Store', tiers, 4,
         'TLC enumerates every operation of the C14 procedure list with every argument combination (pool slots, indices '
-        '-1..len+1 and 100, keys) on five initial pools (proper/improper/shared-tail lists, empty/nested vectors, an '
+        '-1..len+1 and 100, keys) on six initial pools (proper/improper/shared-tail lists, empty/nested vectors, an '
         'association list), and simulates operation sequences of length 12; after every step the result and the '
         'rendering of all four pool objects are compared',
         ['TLC/SANY/Json trusted', 'the harness comparison of data (harness/src/pool.rs) is trusted',
